@@ -150,3 +150,9 @@ def cross(cases, impl, model):
                         [num.bits(c0.ty, v) for v in impl[i][1]] != [num.bits(c0.ty, v) for v in impl[j][1]]:
                     out.append((i, "borrowed conditionals give a different table than owned ones"))
     return out
+
+
+def gen_q(rng, tier):
+    """exact-rational cases: see qgen.py"""
+    from . import qgen
+    return qgen.merges(rng, tier)
